@@ -101,6 +101,12 @@ pub fn c15(tier: &str, seed: u64, known: &[String]) -> Report {
             check_text(&format!("#{s}"), &mut rep);
         }
     }
+    // every code point below U+0300 (all ASCII incl. control characters, Latin-1, Latin Extended) in every position
+    let low: Vec<char> = (0u32..0x300).filter_map(char::from_u32).collect();
+    for base in ["#a1b2c3", "a1b2c3", "#fff", "f0a"] {
+        let v: Vec<char> = base.chars().collect();
+        for p in 0..v.len() { for ch in &low { let mut w = v.clone(); w[p] = *ch; check_text(&w.iter().collect::<String>(), &mut rep); } }
+    }
     for base in ["#a1b2c3", "a1b2c3", "#fff", "f0a", "#000000"] {
         let v: Vec<char> = base.chars().collect();
         for p in 0..=v.len() { for ch in &odd {
@@ -134,6 +140,13 @@ pub fn c16(_tier: &str, _seed: u64, known: &[String]) -> Report {
             Err(_) => rep.check("C16.decode", false, || format!("ansi {} -> panic, want {:?}", n, want)),
         }
     }
+    // every ordered pair of codes decoded one after the other: the result for a code must not depend on what was decoded before
+    for a in 0..=255u8 { for n in 0..=255u8 {
+        let r = std::panic::catch_unwind(|| { let _ = Rgb::try_from(Ansi(a)); Rgb::try_from(Ansi(n)) });
+        let want = xterm(n);
+        let ok = matches!(&r, Ok(Ok(cc)) if (cc.r, cc.g, cc.b) == want);
+        rep.check("C16.decode", ok, || format!("ansi {} decoded right after ansi {} -> {:?} want {:?}", n, a, r.as_ref().map(|x| x.as_ref().map(|cc| (cc.r, cc.g, cc.b)).map_err(|_| "error")).map_err(|_| "panic"), want));
+    } }
     rep
 }
 
@@ -237,6 +250,14 @@ pub fn c18(tier: &str, seed: u64, known: &[String]) -> Report {
     for rgb in &colours {
         for &f in &factors {
             for kind in ["shade", "tint"] {
+                // a call with another factor that has the same number of steps (and one with another colour) goes first: the lists
+                // must depend on the arguments of the call only, not on earlier calls
+                {
+                    let nsteps = (1.0 / f).floor();
+                    let decoy = ((1.0 / (nsteps + 0.5)).min(1.0)).max(1.0 / 256.0);
+                    let other = Rgb::new(rgb.g, rgb.b, rgb.r ^ 0x55);
+                    if kind == "shade" { let _ = Shade::compute(other, decoy); let _ = Shade::compute(*rgb, decoy); } else { let _ = Tint::compute(other, decoy); let _ = Tint::compute(*rgb, decoy); }
+                }
                 let list = if kind == "shade" { Shade::compute(*rgb, f).map(|s| s.0) } else { Tint::compute(*rgb, f).map(|s| s.0) };
                 let list = match list { Ok(l) => l, Err(_) => { rep.check(&format!("C18.{kind}.accepts"), false, || format!("{kind}({}, {}) rejected", c(*rgb), f)); continue; } };
                 rep.ok(&format!("C18.{kind}.accepts"));
